@@ -233,6 +233,15 @@ def make_archive(case, seed=0):
         ranges = [list(r) for r in ranges]
     common = dict(solution_dim=case.get("sol_dim", 2), qd_score_offset=float(fr(case.get("off", "0"))), seed=seed,
                   dtype=dtype_arg(case), extra_fields=extra_fields(case.get("layout", "")))
+    # options at their documented default are OMITTED, so that the defaults themselves are what runs (a changed default
+    # of qd_score_offset / dtype / extra_fields is then judged against the documented one: `Runner.config_echo`
+    # compares what the archive reports with the case, and the dtype / field layout oracles read the case)
+    if fr(case.get("off", "0")) == 0:
+        del common["qd_score_offset"]
+    if not case.get("layout", ""):
+        del common["extra_fields"]
+    if case["dtype"] == "f64" and forms.get("dtype", "one") == "one":
+        del common["dtype"]
     if case["kind"] == "grid":
         return GridArchive(dims=case["dims"], ranges=ranges, **kw, **common)
     if case["kind"] == "cvt":
@@ -391,6 +400,14 @@ class Run:
                                f"longer behaves as if that call had never happened: {what}")
             return None
         return Failure(kind, f"[{prop}] {what}") if prop in self.props else None
+
+    def F_any(self, props, kind, what):
+        """a failure that violates several properties at once: attributed to the first one this run serves"""
+        for prop in props:
+            f = self.F_(prop, kind, what)
+            if f is not None:
+                return f
+        return None
 
     def snapshot(self):
         o = observe(self.archive, self.case)
@@ -864,8 +881,39 @@ class Run:
 
     # -- whole case --------------------------------------------------------------
 
+    def config_echo(self):
+        """The archive reports the configuration it was given (the oracles then use the reported numbers): offset,
+        learning rate and threshold_min as configured -- or their documented defaults 0, 1, -inf when omitted --
+        cast to the objective dtype; dims, cells and ranges as passed."""
+        a, case, dt = self.archive, self.case, NP[self.dt]
+        want = {"qd_score_offset": dt(float(fr(case.get("off", "0")))),
+                "learning_rate": dt(1.0 if case.get("lr") is None else float(fr(case["lr"]))),
+                "threshold_min": dt(-np.inf if case.get("tmin") is None else float(fr(case["tmin"])))}
+        for name, w in want.items():
+            got = getattr(a, name)
+            if not (np.asarray(got).shape == () and float(got) == float(w)):
+                return self.F_any(["C06", "C05", "C02", "C01", "C07"], "oracle",
+                                  f"construction: archive.{name} = {got!r}, configured"
+                                  f"{'' if case.get({'qd_score_offset': 'off', 'learning_rate': 'lr', 'threshold_min': 'tmin'}[name]) is not None else ' (documented default)'} {w!r}")
+        if case["kind"] in ("grid", "sb"):
+            if [int(d) for d in a.dims] != list(case["dims"]) or int(a.cells) != int(np.prod(case["dims"])):
+                return self.F_any(["C03", "C06", "C01", "C07", "C02", "C05"], "oracle",
+                                  f"construction: dims {list(a.dims)} / cells {a.cells}, configured {case['dims']}")
+        if case["kind"] == "grid":
+            mdt = NP[self.mdt]
+            lo = [float(mdt(float(fr(x)))) for x in case["lo"]]
+            hi = [float(mdt(float(fr(x)))) for x in case["hi"]]
+            if [float(x) for x in a.lower_bounds] != lo or [float(x) for x in a.upper_bounds] != hi:
+                return self.F_any(["C03", "C06", "C01", "C07", "C02", "C05"], "oracle",
+                                  f"construction: bounds {list(a.lower_bounds)} .. {list(a.upper_bounds)}, configured "
+                                  f"ranges {lo} .. {hi}")
+        return None
+
     def run(self):
         try:
+            f = self.config_echo()
+            if f is not None:
+                return f
             for k, op in enumerate(self.case["ops"]):
                 where = f"op#{k} {op['op']}"
                 kind = op["op"]
